@@ -517,9 +517,13 @@ func (r *runner) report(start time.Time, n, nrace int) int {
 		"wall_s":      wall,
 		"violations":  viol,
 	}
-	_ = os.MkdirAll(filepath.Join(r.home, "evidence"), 0o755)
+	evDir := filepath.Join(r.home, "evidence")
+	if d := os.Getenv("VERIF_EVIDENCE_DIR"); d != "" {
+		evDir = d // mutation trials must not overwrite the evidence of the real tree
+	}
+	_ = os.MkdirAll(evDir, 0o755)
 	b, _ := json.MarshalIndent(ev, "", " ")
-	_ = os.WriteFile(filepath.Join(r.home, "evidence", p.ID()+".json"), append(b, '\n'), 0o644)
+	_ = os.WriteFile(filepath.Join(evDir, p.ID()+".json"), append(b, '\n'), 0o644)
 
 	fmt.Printf("%s %s seed=%d: cases=%d completed=%d race_cases=%d evaluations=%d distinct_nontrivial=%d inconclusive=%d race_reports=%d wall=%.1fs\n",
 		p.ID(), r.tier, r.seed, n, len(r.results)-raceCases, raceCases, evals, len(distinct), incon, len(r.races), wall)
@@ -544,6 +548,9 @@ func (r *runner) report(start time.Time, n, nrace int) int {
 	}
 	if viol > 0 {
 		dir := filepath.Join(r.home, "replays", p.ID())
+		if d := os.Getenv("VERIF_EVIDENCE_DIR"); d != "" {
+			dir = filepath.Join(d, "replays", p.ID())
+		}
 		_ = os.MkdirAll(dir, 0o755)
 		shown := 0
 		for _, v := range violations {
